@@ -46,7 +46,8 @@ CLAUSE → THEOREM TABLE (review R3; property text in properties.jsonl, id C09)
        versions can, and are.
        Rows of combined weight exactly 0 get label 0 and weight 0 (`relabel`; label irrelevant: C07.zero_weight_label_
        irrelevant).  All labels equal ⇒ DummyClassifier: `trainAt`, covered by `trainAt_minimises`.  All weights 0 ⇒
-       sklearn's DummyClassifier raises ValueError: finding F12, not modelled (the model trains the constant).
+       sklearn's DummyClassifier raises ValueError: finding F12, not modelled (the model trains the constant 0:
+       `all_zero_weights_take_dummy_branch` locates the shape).
        BoundedGroupLoss (`is_classification_reduction = False`: `y_reduction = y`, weights not abs'ed) is NOT a branch
        of `fitLoop` (PARTIAL there: the check feeds the model the BGL weights signed by the label, so that `relabel`
        returns (y, w) — correspondence only); the clause itself is proved for that column of `GridSearch.fit` as modelled
@@ -741,6 +742,33 @@ theorem xLearner_shape (w : List Rat) :
   obtain ⟨p, hp, rfl⟩ := List.mem_map.mp hx
   exact relabel_labels_binary w p hp
 
+/-- WHERE FINDING F12 SITS IN THE MODEL (totalisation note): when every combined signed weight is exactly 0 (constraint
+    weights cancel the objective weights on all rows) the relabelled data has the single label 0 and all sample weights
+    0, the lifted dummy rule fires, and the model trains the constant-0 predictor.  The source takes the same branch but
+    sklearn's `DummyClassifier.fit` rejects an all-zero `sample_weight` with ValueError (replayed:
+    corpus/C09/f12-all-signed-weights-zero.json) — an error the model does not have; `fit_spec` and the best-response
+    theorems describe the model's answer there, not an answer of the source. -/
+theorem all_zero_weights_take_dummy_branch (learner : List (Nat × Rat) → List Nat) (w : List Rat) (hne : w ≠ [])
+    (hz : ∀ x ∈ w, x = 0) :
+    GridSrc.useDummy (nUnique (relabel w) : Nat) = true ∧
+    trainAt learner (relabel w) = List.replicate w.length 0 ∧ ∀ p ∈ relabel w, p.2 = 0 := by
+  have hl := labels_all_zero w hz
+  obtain ⟨n, hn⟩ : ∃ n, w.length = n + 1 := by
+    cases w with
+    | nil => exact absurd rfl hne
+    | cons a l => exact ⟨l.length, rfl⟩
+  have hu : nUnique (relabel w) = 1 := by
+    unfold nUnique; rw [hl, hn, eraseDups_replicate_succ]; rfl
+  have hd : GridSrc.useDummy (nUnique (relabel w) : Nat) = true := by rw [hu]; decide
+  refine ⟨hd, ?_, ?_⟩
+  · unfold trainAt
+    rw [if_pos hd, hl, hn]
+    simp [List.replicate_succ, relabel_length, hn]
+  · intro p hp
+    rw [relabel_def] at hp
+    obtain ⟨x, hx, rfl⟩ := List.mem_map.mp hp
+    simp [hz x hx]
+
 /-! ### lifted definitions that no model function consumes: tied by a theorem each (review R3) -/
 
 /-- `if n_units < 0: n_units = 0` (lifted `GridSrc.estClip`): the start of the search is a natural number and the
@@ -837,5 +865,8 @@ example : (fitLoop false (fun lam => lam) [0, 0, 0, 0] xLearner
     some ([[1, 1, 0, 0], [0, 0, 0, 0]], [1/2, 0], [[1/2, -1/2], [0, 0]], 1) := by decide +kernel
 /-- `predict_delegates`: in range -/
 example : predictWith (fun (p : List Nat) => p.sum) [[1, 1, 0, 0], [0, 0, 0, 1]] 1 = some 1 := by decide +kernel
+/-- `all_zero_weights_take_dummy_branch`: the F12 shape (constraint weights cancel the objective weights on every row) -/
+example : combineWeights false [1, -1, 1, -1] [-1, 1, -1, 1] = [0, 0, 0, 0] ∧
+    trainAt xLearner (relabel [0, 0, 0, 0]) = [0, 0, 0, 0] ∧ ([0, 0, 0, 0] : List Rat) ≠ [] := by decide +kernel
 
 end C09
